@@ -54,6 +54,8 @@ pub fn probes(_tier: &str) -> Vec<String> {
     "probe.service_type_spelled_as_array",
     "probe.jpt_twin_revoked",
     "probe.jpt_twin_not_revoked",
+    "probe.sd_jwt_twin_revoked",
+    "probe.sd_jwt_twin_not_revoked",
   ]
   .iter()
   .map(|s| (*s).to_owned())
@@ -558,8 +560,112 @@ pub fn run(params: &Params) {
   if ctx::choose(8) == 0 {
     jpt_twin_scenario(&issuer_core(&issuer.doc), &services[0], &model[&services[0]]);
   }
+  // ---- ... and on a credential issued as an SD-JWT and validated by the SD-JWT validator (the third twin) ----
+  if ctx::choose(8) == 0 {
+    sd_jwt_twin_scenario(&issuer_core(&issuer.doc), &services[0], &model[&services[0]]);
+  }
   if nontrivial {
     ctx::mark_nontrivial();
+  }
+}
+
+/// The same status entry on a credential issued as an SD-JWT (one claim concealed and disclosed) with a fresh Ed25519
+/// method of the issuer, validated with `SdJwtCredentialValidator::validate_credential` under the default options
+/// (`StatusCheck::Strict`): reported revoked exactly when the index is a member.
+fn sd_jwt_twin_scenario(core: &CoreDocument, sid: &str, model: &BTreeSet<u32>) {
+  use identity_credential::sd_jwt_payload::SdJwt;
+  use identity_credential::sd_jwt_payload::SdObjectDecoder;
+  use identity_credential::sd_jwt_payload::SdObjectEncoder;
+  use identity_credential::validator::SdJwtCredentialValidator;
+  use identity_did::DID;
+  use identity_storage::JwkMemStore;
+  use identity_storage::KeyIdMemstore;
+  use identity_storage::Storage;
+  use identity_verification::jws::JwsAlgorithm;
+  use identity_verification::MethodScope;
+
+  let mut doc = core.clone();
+  let storage: Storage<JwkMemStore, KeyIdMemstore> = Storage::new(JwkMemStore::new(), KeyIdMemstore::new());
+  let Ok(fragment) = block_on(doc.generate_method(&storage, JwkMemStore::ED25519_KEY_TYPE, JwsAlgorithm::EdDSA, None, MethodScope::assertion_method())) else {
+    return;
+  };
+  let member = !model.is_empty() && ctx::choose(2) == 0;
+  let index: u32 = if member {
+    *model.iter().nth(ctx::choose(model.len().min(64))).expect("non-empty")
+  } else {
+    let mut i = 12_000_000 + ctx::choose(1000) as u32;
+    while model.contains(&i) {
+      i += 1;
+    }
+    i
+  };
+  let cred = serde_json::json!({
+    "@context": "https://www.w3.org/2018/credentials/v1",
+    "id": "https://cred.example/sd-jwt-twin",
+    "type": ["VerifiableCredential"],
+    "issuer": doc.id().as_str(),
+    "issuanceDate": "2020-01-01T00:00:00Z",
+    "credentialSubject": {"id": "did:sim:subject", "name": "Alice", "level": 3},
+    "credentialStatus": {"id": sid, "type": "RevocationBitmap2022", "revocationBitmapIndex": index.to_string()}
+  });
+  let Ok(cred) = Credential::<Object>::from_json_value(cred) else { return };
+  let Ok(payload) = cred.serialize_jwt(None) else { return };
+  let Ok(mut enc) = SdObjectEncoder::new(&payload) else { return };
+  let mut disclosures: Vec<String> = Vec::new();
+  if let Ok(d) = enc.conceal("/vc/credentialSubject/name", Some(crate::core::b64::encode(ctx::bytes(16)))) {
+    disclosures.push(d.to_string());
+  }
+  let Ok(encoded) = enc.try_to_string() else { return };
+  let opts = JwsSignatureOptions::default().typ("sd-jwt".to_owned());
+  let Ok(jws) = block_on(doc.create_jws(&storage, &fragment, encoded.as_bytes(), &opts)) else {
+    ctx::stat("observation.sd_jwt_twin_not_signed");
+    return;
+  };
+  let sd = SdJwt::new(jws.as_str().to_owned(), disclosures, None);
+  ctx::stat("probe.sd_jwt_twin_validated");
+  ctx::sched("sdtwin", member as u64);
+  let validator = SdJwtCredentialValidator::with_signature_verifier(EdDSAJwsVerifier::default(), SdObjectDecoder::new_with_sha256());
+  let res = ctx::catch(|| {
+    validator
+      .validate_credential::<_, Object>(&sd, &doc, &JwtCredentialValidationOptions::default(), FailFast::FirstError)
+      .map(|_| ())
+      .map_err(|e| {
+        e.validation_errors
+          .iter()
+          .map(|x| {
+            let name: &'static str = x.into();
+            name
+          })
+          .collect::<Vec<&'static str>>()
+      })
+  });
+  match (res, member) {
+    (Err(p), _) => ctx::violation("C06", "C06.validation_reports_exactly_members", "sd-jwt-validation/panic", format!("SD-JWT validation panicked: {p}")),
+    (Ok(Ok(())), true) => ctx::violation(
+      "C06",
+      "C06.validation_reports_exactly_members",
+      "sd-jwt-validation/revoked-but-accepted",
+      format!("index {index} is revoked in {sid}; the credential issued as an SD-JWT was accepted under StatusCheck::Strict"),
+    ),
+    (Ok(Ok(())), false) => ctx::stat("probe.sd_jwt_twin_not_revoked"),
+    (Ok(Err(names)), true) => {
+      if names.contains(&"Revoked") {
+        ctx::stat("probe.sd_jwt_twin_revoked");
+      } else {
+        ctx::violation(
+          "C06",
+          "C06.validation_reports_exactly_members",
+          format!("sd-jwt-validation/member-but-other-error/{}", names.join("+")),
+          format!("index {index} is revoked but SD-JWT validation reports {names:?} instead of Revoked"),
+        );
+      }
+    }
+    (Ok(Err(names)), false) => ctx::violation(
+      "C06",
+      "C06.validation_reports_exactly_members",
+      format!("sd-jwt-validation/not-member-but-rejected/{}", names.join("+")),
+      format!("index {index} is not revoked but SD-JWT validation failed with {names:?}"),
+    ),
   }
 }
 
